@@ -579,6 +579,59 @@ var vfFamABadNames = []string{
 	"bad-origin",       // o= line with too few fields (unparsable)
 	"no-media",         // every media section removed (no ICE credentials left)
 	"half-fingerprint", // fingerprint attribute without a value part
+	// per-section variants: the attribute is removed from ONE m-section only (a check that only
+	// looks at the first / the media sections passes the rest of the description)
+	"no-mid-last-section",        // a=mid removed from the last m-section only
+	"no-mid-first-section",       // a=mid removed from the first m-section only
+	"no-mid-application-section", // a=mid removed from the m=application section only
+	"no-ice-ufrag-last-section",  // a=ice-ufrag removed from the last m-section only
+	"no-fingerprint-last-section",
+}
+
+// vfFamADropLinesInSection removes lines starting with prefix from one m-section:
+// which = "first" | "last" | "application". ok is false when nothing was removed or when the
+// description has fewer than two m-sections (then the variant equals the whole-description one).
+func vfFamADropLinesInSection(text, prefix, which string) (string, bool) {
+	lines := strings.SplitAfter(text, "\n")
+	var starts []int
+	for i, l := range lines {
+		if strings.HasPrefix(l, "m=") {
+			starts = append(starts, i)
+		}
+	}
+	if len(starts) < 2 {
+		return "", false
+	}
+	sec := -1
+	switch which {
+	case "first":
+		sec = 0
+	case "last":
+		sec = len(starts) - 1
+	case "application":
+		for k, st := range starts {
+			if strings.HasPrefix(lines[st], "m=application") {
+				sec = k
+			}
+		}
+	}
+	if sec < 0 {
+		return "", false
+	}
+	from, to := starts[sec], len(lines)
+	if sec+1 < len(starts) {
+		to = starts[sec+1]
+	}
+	var b strings.Builder
+	n := 0
+	for i, l := range lines {
+		if i >= from && i < to && strings.HasPrefix(l, prefix) {
+			n++
+			continue
+		}
+		b.WriteString(l)
+	}
+	return b.String(), n > 0
 }
 
 func vfFamADropLines(text, prefix string) (string, bool) {
@@ -600,6 +653,16 @@ func vfFamAMunge(bi int, text string) (string, bool) {
 		return "", false
 	}
 	switch vfFamABadNames[bi] {
+	case "no-mid-last-section":
+		return vfFamADropLinesInSection(text, "a=mid:", "last")
+	case "no-mid-first-section":
+		return vfFamADropLinesInSection(text, "a=mid:", "first")
+	case "no-mid-application-section":
+		return vfFamADropLinesInSection(text, "a=mid:", "application")
+	case "no-ice-ufrag-last-section":
+		return vfFamADropLinesInSection(text, "a=ice-ufrag:", "last")
+	case "no-fingerprint-last-section":
+		return vfFamADropLinesInSection(text, "a=fingerprint:", "last")
 	case "no-mid":
 		return vfFamADropLines(text, "a=mid:")
 	case "no-ice-ufrag":
